@@ -242,6 +242,8 @@ def run(eng: Engine, ck: Check):
     regs = [x for x in calls_on(eng.func(USERM, f'{UTM}.register_listeners').node, 'register')
             if unparse(x.args[0]) == 'ConnectionStateChangedEvent' and unparse(x.args[1]) == 'self._on_state_changed']
     ck.ob('R-C15-RESET', osc, osc.node, 'the tracking manager listens for connection state changes', len(regs) == 1, '', construct='reset listener registered')
+    from . import defs as _d15w
+    _d15w.listener_never_awaits_deliverer(eng, ck, 'R-C15-RESET', 'dropping everything on CLOSED must complete whichever task reports the close, also a tracking worker whose own send failed')
 
     # ---- R-C15-TRANSFER
     mut = eng.func(TM, 'TransferManager.manage_user_tracking')
@@ -254,6 +256,19 @@ def run(eng: Engine, ck: Check):
         lp = next(a for a in ancestors(x) if isinstance(a, ast.For))
         ok = 'get_unfinished_transfers' in unparse(expand_aliases(mut, lp.iter)) and enum_member(x.args[1]) == 'TRANSFER' and unparse(x.args[0]) == lp.target.id
         ck.ob('R-C15-TRANSFER', mut, x, 'users with unfinished transfers are tracked with reason TRANSFER', ok, unparse(x), construct='transfer track')
+        # .. EVERY such user, on EVERY cycle: the tracking manager forgets all reasons when the server connection closes (R-C15-RESET) and
+        # nothing but this loop puts the TRANSFER reason back after the next login.  A domain narrowed by what the transfer manager
+        # remembers having asked before (`unfinished - self._already_tracked`) survives the disconnect and skips exactly those users.
+        it_x = expand_aliases(mut, lp.iter)
+        narrowed = [n_ for n_ in ast.walk(it_x) if (isinstance(n_, ast.BinOp) and isinstance(n_.op, (ast.Sub, ast.BitAnd, ast.BitXor))) or
+                    (isinstance(n_, ast.Call) and call_name(n_) in ('difference', 'intersection', 'symmetric_difference', 'filter')) or
+                    (isinstance(n_, ast.comprehension) and n_.ifs)]
+        own_guards = [unparse(e_) for e_, _, a_ in eng.guards_at(mut, x) if any(a_.ast is y or any(a_.ast is z for z in ast.walk(y)) for y in lp.body)]
+        ck.ob('R-C15-TRANSFER', mut, x, 'the TRANSFER reason is requested again on every cycle for every user with an unfinished transfer (it is what restores tracking after '
+              'a server disconnect dropped it)', not narrowed and not own_guards,
+              f'the loop runs over `{unparse(lp.iter)}`' + (f' = `{unparse(it_x)[:90]}`' if unparse(it_x) != unparse(lp.iter) else '') +
+              (f' under {own_guards}' if own_guards else '') + ': users left out keep an empty reason set after a reconnect, no AddUser is sent, their status is never updated',
+              construct='transfer track every cycle')
     for x in un:
         lp = next(a for a in ancestors(x) if isinstance(a, ast.For))
         it = expand_aliases(mut, lp.iter)
@@ -266,6 +281,8 @@ def run(eng: Engine, ck: Check):
         puts = calls_on(f.node, 'put_nowait')
         ck.ob('R-C15-OWNERS', f, f.node, f'{q} enqueues a flag operation for the worker and sends nothing itself', len(puts) == 1 and
               not [x for x in calls_in(f.node) if call_name(x) in ('send_server_messages', 'send_message')], '', construct=f'{q} enqueues')
+    from . import defs as _d15
+    _d15.enum_members_distinct(eng, ck, 'R-C15-EDGES', [('TrackingFlag', 'user/model.py'), ('TrackingState', 'user/model.py')], 'the reason set is a set of DIFFERENT reasons: dropping one must not drop another')
 
 
 def sync_removed_any(rets, lookups, loc) -> bool:
@@ -273,5 +290,3 @@ def sync_removed_any(rets, lookups, loc) -> bool:
     while an old worker's callback is still pending, i.e. once the window is closed
     by one of the two accepted mechanisms."""
     return bool(loc.get('sync_removed')) or lookups
-    from . import defs as _d15
-    _d15.enum_members_distinct(eng, ck, 'R-C15-EDGES', [('TrackingFlag', 'user/model.py'), ('TrackingState', 'user/model.py')], 'the reason set is a set of DIFFERENT reasons: dropping one must not drop another')
